@@ -90,15 +90,24 @@ def r17_1(prog, rep):
         "echs_shift_bvalue": ("maskshift", B, (1 << D) - 1),
         "echs_shift_absval": ("maskshift", B, (1 << D) - 1),
     }
+    def unpacking(name, seen=()):
+        """Masks and shift counts an accessor applies to the packed word, its own and those of the sibling accessors it goes through."""
+        f_ = prog.fn(name, "shift.h")
+        masks_, shifts_ = set(), set()
+        for b, i, x, line in f_.cfg.all_elems():
+            for n in walk(f_.cfg.resolve(x)):
+                if n.get("k") == "bin" and n["op"] == "&" and int_value(n["r"]) is not None:
+                    masks_.add(int_value(n["r"]))
+                if n.get("k") == "bin" and n["op"] == ">>" and int_value(n["r"]) is not None:
+                    shifts_.add(int_value(n["r"]))
+                if n.get("k") == "call" and n.get("fn") in want and n["fn"] != name and n["fn"] not in seen:
+                    m2, s2 = unpacking(n["fn"], tuple(seen) + (name,))
+                    masks_ |= m2
+                    shifts_ |= s2
+        return masks_, shifts_
     for name, (kind, shc, mask) in want.items():
         f = prog.fn(name, "shift.h")
-        masks, shifts = set(), set()
-        for b, i, x, line in f.cfg.all_elems():
-            for n in walk(f.cfg.resolve(x)):
-                if n.get("k") == "bin" and n["op"] == "&" and int_value(n["r"]) is not None:
-                    masks.add(int_value(n["r"]))
-                if n.get("k") == "bin" and n["op"] == ">>" and int_value(n["r"]) is not None:
-                    shifts.add(int_value(n["r"]))
+        masks, shifts = unpacking(name)
         ok = True
         if kind in ("shift", "maskshift") and shc not in shifts:
             ok = False
@@ -452,12 +461,22 @@ def r17_5(prog, rep, rid="R17.5"):
             low = sh & 0xffff
             return {"echs_shift_dvalue": sh >> 16, "echs_shift_bday_p": int(bool(low)), "echs_shift_neg_p": sh & 1, "echs_shift_inv_p": (sh >> 1) & 1,
                     "echs_shift_bvalue": (low >> 2) if not (sh & 1) else -(low >> 2), "echs_shift_absval": low >> 2}[nm]
+        # the cursor: the locals that start out as the year and the month of the rule's start (whatever they are called)
+        names = {}
+        for b, i, x, line in cfg.all_elems():
+            for l, kind, nn in writes(x):
+                if kind == "decl" and nn.get("init") is not None:
+                    ini = strip_casts(cfg.resolve(nn["init"]))
+                    if ini.get("k") == "mem" and ini.get("f") in ("y", "m") and "instant" in (strip_casts(ini["b"]).get("t") or "") + (ini.get("rec") or ""):
+                        names.setdefault(ini["f"], lv(l))
+        if any(c_ not in names for c_ in cur):
+            raise AnalysisBroken("R17.5: %s: the year/month cursor was not found (%s)" % (fname, names))
         missed = []
         for label, sh, fwd in CLASSES:
-            init = {"%s->shift" % rr: sx(sh), "y": 2023, "m": 1}
+            init = {"%s->shift" % rr: sx(sh), names.get("y", "y"): 2023, names.get("m", "m"): 1}
             outs = []
             w = AbsWalk(f, {l_["n"] for l_ in f.locals}, init=init, call_eval=call_eval, max_states=20000)
-            w.run(start_block=start, stop_at={mh}, on_exit=lambda st_: outs.append(tuple(st_.get(c_) for c_ in cur)))
+            w.run(start_block=start, stop_at={mh}, on_exit=lambda st_: outs.append(tuple(st_.get(names[c_]) for c_ in cur)))
             if not outs or len(set(outs)) != 1 or None in outs[0]:
                 raise AnalysisBroken("R17.5: %s with %s: no single cursor at the expansion loop (%s)" % (fname, label, outs[:3]))
             back = outs[0] < tuple({"y": 2023, "m": 1}[c_] for c_ in cur)
